@@ -127,7 +127,7 @@ class FreeCheck:
 
     def on_leaf(s, out):
         ex = s.ex
-        rec = {'kind': out[0]}
+        rec = {'kind': out[0], 'steps': ex.steps}
         viol = []
         if out[0] == 'ok':
             r = out[1]
